@@ -24,6 +24,7 @@ type Network struct {
 	freeMap        map[int]struct{}
 	minimizeOption MinimizeOption
 	minimumSpeed   float64 // The minimum speed traveled on any link in the network.
+	maximumSpeed   float64 // The maximum speed traveled on any link in the network.
 }
 
 // NewNetwork initializes a new Network where m determines how to choose
@@ -161,6 +162,9 @@ func (net *Network) AddLink(l geom.LineString, speed float64) {
 	if e.speed < net.minimumSpeed {
 		net.minimumSpeed = e.speed
 	}
+	if e.speed > net.maximumSpeed {
+		net.maximumSpeed = e.speed
+	}
 	fid := from.ID()
 	tid := to.ID()
 	if fid == tid {
@@ -285,7 +289,9 @@ func (net *Network) costHeuristic(x, y graph.Node) float64 {
 	// calculate the time to ensure the heuristic is less than the actual
 	// value
 	case Time:
-		return distance / net.minimumSpeed
+		// The estimate must never exceed the real travel time, so it has to
+		// assume the fastest speed in the network.
+		return distance / net.maximumSpeed
 	case Distance:
 		// If we're optimizing by distance, just return the distance.
 		return distance
